@@ -400,6 +400,14 @@ def main():
         one[rng.randrange(n)] = hi - 1
         rows.append(one)
         rows += [[rng.choice([0, hi - 1, rng.randrange(hi)]) for _ in range(n)] for _ in range(3)]
+        # powers of two and their neighbours (every bit position of the width, largest value first)
+        ks = sorted({w - 1, w - 2, rng.randrange(w), rng.randrange(w)} & set(range(0, min(w, 63))))
+        for k in ks:
+            for v in (2**k, 2**k + 1, 2**k - 1, 2**k + rng.randrange(2 ** max(k - 40, 0) + 1)):
+                if 0 <= v < hi:
+                    r = [rng.choice([0, 1, v]) for _ in range(n)]
+                    r[rng.randrange(n)] = v
+                    rows.append(r)
         check_codec(ck, w, n, rows)
     # end-to-end action on graphs (encoded with several widths, un-encoded, matrices)
     for _ in range(60 if not ck.thorough else 1500):
@@ -427,9 +435,11 @@ def main():
     for _ in range(80 if not ck.thorough else 3000):
         if ck.enough():
             break
-        n = rng.choice([1, 2, 3, 4, 5])
+        n = rng.choice([1, 2, 3, 4, 5, 8, 9, 12, 16])
         m = rng.choice([1, 2, n])
-        modulo = rng.choice([0, 2, 3, 10, 2**31 - 1, 2**31, 2**31 - 1, 65537])
+        # moduli: small, the documented extremes, and values around the int64 overflow boundary n*(m-1)^2 = 2^63
+        boundary = int((2**63 / n) ** 0.5)
+        modulo = rng.choice([0, 2, 3, 10, 2**31 - 1, 2**31, 2**31 - 1, 65537, 2**30 - 1, 2**30 - 35, 2**29 + 3, min(2**31, boundary + rng.randint(-3, 3)), min(2**31, boundary + boundary // 7), max(2, boundary - boundary // 9)])
         if modulo > 0:
             M = [rng.choice([0, 1, modulo - 1, rng.randrange(modulo)]) for _ in range(n * n)]
             S = [rng.choice([0, 1, modulo - 1, rng.randrange(modulo)]) for _ in range(n * m)]
